@@ -48,6 +48,52 @@ def removed_tokens(tr):
     return out
 
 
+def shares_node_boundary(tk, removed, lo, hi):
+    """Does the step that removes the token indices `removed` delete the open or close token
+    of a node whose span [open, close] overlaps the other step's hull [lo, hi]?"""
+    for i in removed:
+        if i >= len(tk):
+            continue
+        if tk[i][0] == "O":
+            oi, ci = i, gensteps.matching_close(tk, i)
+        elif tk[i][0] == "C":
+            depth = 0
+            oi = None
+            for j in range(i, -1, -1):
+                if tk[j][0] == "C":
+                    depth += 1
+                elif tk[j][0] == "O":
+                    depth -= 1
+                    if depth == 0:
+                        oi = j
+                        break
+            if oi is None:
+                continue
+            ci = i
+        else:
+            continue
+        if lo <= ci + 1 and hi >= oi:
+            return True
+    return False
+
+
+def reparents(sch, tk, dX, hX, hY):
+    """Does step X (hull hX, result dX) change the chain of ancestor node types at the ends
+    of step Y's range?  (reference token lists on both sides, reference mapping rule)"""
+    tkx = flat.toks(flat.pt(dX)[4], sch.leaf)
+    for pos, assoc in ((hY[0], 1), (hY[1], -1), (hY[0], -1), (hY[1], 1)):
+        if pos > len(tk):
+            continue
+        before = [tk[i][1] for i in flat.open_stack(tk, pos)]
+        q = refmap.map_pos(hX[2], pos, assoc).pos if hX[2] else pos
+        if q > len(tkx):
+            continue
+        after = [tkx[i][1] for i in flat.open_stack(tkx, q)]
+        if before != after:
+            return True
+    return False
+
+
 def enclosing_tokens(tk, lo, hi):
     """Indices of the open and close tokens of every node enclosing [lo,hi]."""
     out = set()
@@ -133,7 +179,9 @@ def case(ctx, rnd, i):
             if d1 is None or d2 is None:
                 # structural facts for the known-limit classifier
                 ra, rb = removed_tokens(hA[2]), removed_tokens(hB[2])
-                anc = bool(ra & enclosing_tokens(tk, hB[0], hB[1])) or bool(rb & enclosing_tokens(tk, hA[0], hA[1]))
+                anc = bool(ra & enclosing_tokens(tk, hB[0], hB[1])) or bool(rb & enclosing_tokens(tk, hA[0], hA[1])) \
+                    or shares_node_boundary(tk, ra, hB[0], hB[1]) or shares_node_boundary(tk, rb, hA[0], hA[1])
+                anc = anc or reparents(sch, tk, dA, hA, hB) or reparents(sch, tk, dB, hB, hA)
                 msgs = [str(f1 or ""), str(f2 or "")]
                 validity = all((not m_) or m_.startswith("Invalid content") or "Invalid collection of marks" in m_ or "Cannot join" in m_ for m_ in msgs)
                 ctx.violation("order-fails", "%s; %s" % ("B'(A(doc)) failed: %s" % f1 if d1 is None else "B'(A(doc)) ok",
